@@ -38,6 +38,27 @@ package authgrants
 // after a Write starts the next request of the group (c06DelegateSide); the j-th
 // answer the delegate reads for a group answers its j-th request (answers carry
 // no tag: they can only correspond by order).
+//
+// TARGET ANSWER DELAY: every target (scripted or real) may take a drawn virtual
+// time (0, 1, 4, 6, 30, 120 s) before it acts on an intent communication. The
+// statement puts no bound on how long an answer may take, so the delegate waits
+// as long as it takes for the answers it is owed and the oracle is unchanged: a
+// principal that gives up on a slow target and denies is fine, a principal that
+// hands the delegate a LATE answer of the target as the answer to another
+// request is not (confirmation only if the target confirmed THAT request). What a
+// target does is attributed to the request whose bytes it is acting on - the
+// request that was in flight when the principal wrote those bytes (c06RecConn
+// keeps the byte ranges) - not to the request in flight when it gets round to it.
+//
+// MALFORMED REQUESTS may stand at any position of the sequence (a message the
+// request parser must refuse, most of them partway through: timestamps beyond the
+// representable range, a name block below its minimum size, an over-long id
+// chunk, unknown / foreign message types with trailing bytes). A malformed
+// message is not a request: nothing may be forwarded or confirmed for it and the
+// delegate reads at most one answer to it. What becomes of the requests BEHIND a
+// malformed one is not judged request by request (the statement is silent; the
+// project's principal hangs up) - only the count: at no time has the delegate
+// read more answers than the number of messages it has completely written.
 
 import (
 	"bytes"
@@ -51,6 +72,7 @@ import (
 	"runtime/debug"
 	"strings"
 	"sync"
+	"sync/atomic"
 	"testing"
 	"testing/synctest"
 	"time"
@@ -122,7 +144,10 @@ type c06Req struct {
 	TLen   int    `json:"tl,omitempty"` // length of the target's reason, 0..255
 	GSeed  uint64 `json:"gs,omitempty"`
 	GLen   int    `json:"gl,omitempty"`
-	GFirst byte   `json:"gf,omitempty"` // first garbage byte (never 3 = confirmation)
+	GFirst byte   `json:"gf,omitempty"`    // first garbage byte (never 3 = confirmation)
+	Delay  int    `json:"delay,omitempty"` // virtual seconds the target takes before it acts on this request's intent communication (0..120)
+	// 0: a well-formed request; otherwise the message written at this position is MALFORMED (kind: see c06Malformed), built from this entry's intent
+	Bad int `json:"bad,omitempty"`
 	// how the delegate puts this request on the wire
 	Ahead bool `json:"ahead,omitempty"` // written right behind the previous request, before the outstanding answers are read (never for the first request)
 	Split int  `json:"split,omitempty"` // 0: no pause; -1: the stream pauses (1 virtual ns: everybody else runs until blocked) just before this message; s>0: it pauses inside this message, after s%len bytes
@@ -133,7 +158,7 @@ type c06Case struct {
 	Tgts    []c06Tgt  `json:"tgts"`
 	Certs   []c06Cert `json:"certs"`
 	Reqs    []c06Req  `json:"reqs"`
-	Trailer int       `json:"trailer,omitempty"` // 0 none; malformed message sent after the last request (see c06Trailer)
+	Trailer int       `json:"trailer,omitempty"` // 0 none; malformed message sent after the last request (kind: see c06Malformed)
 	Deliv   int       `json:"deliv,omitempty"`   // how every connection hands bytes to its reader: 0 whatever is buffered; 1 one byte per Read; 2 keyed chunks of 1..7 bytes; +4: the last buffered bytes of a closed stream come together with io.EOF (as tubes do)
 }
 
@@ -347,25 +372,74 @@ func (c c06Case) wire(k int) c06Wire {
 	return w
 }
 
-// c06Trailer returns the malformed message sent after the last request.
-func (c c06Case) trailer() (msg []byte, closeAfter bool, name string) {
-	if len(c.Reqs) == 0 {
-		return nil, false, ""
-	}
-	body := c.wire(len(c.Reqs) - 1).body()
-	switch c.Trailer {
+// c06Malformed builds a message that is NOT a well-formed intent request from the
+// encoding of a well-formed one (w). Every kind is refused by the request format as
+// documented: times are seconds since the epoch in the signed 64-bit range, a name
+// block is at least 3 bytes, an id chunk at most 512, and only message type 1 is a
+// request. closeAfter: the delegate goes away right behind it (only as a trailer).
+func c06Malformed(kind int, w c06Wire) (msg []byte, closeAfter bool, name string) {
+	body := w.body()
+	req := append([]byte{1}, body...)
+	switch kind {
 	case 1: // truncated intent request, then the delegate goes away
 		return append([]byte{1}, body[:len(body)/2]...), true, "truncated-request"
 	case 2: // a confirmation where a request is expected
 		return []byte{3}, false, "confirmation-as-request"
 	case 3: // a complete intent COMMUNICATION where a request is expected
 		return append([]byte{2}, body...), false, "communication-as-request"
-	case 4: // start time beyond the representable range
-		b := append([]byte{1}, body...)
-		b[1+4] |= 0x80
-		return b, false, "timestamp-out-of-range"
+	case 4: // start time beyond the representable range (refused after 12 bytes of the message)
+		req[1+4] |= 0x80
+		return req, false, "timestamp-out-of-range"
+	case 5: // expiry time beyond the representable range
+		req[1+12] |= 0x80
+		return req, false, "exp-timestamp-out-of-range"
+	case 6: // target name block smaller than its own header
+		req[1+20] = 2
+		return req, false, "name-block-too-small"
+	case 7: // id chunk of the delegate certificate longer than the maximum of 512 bytes
+		off := 1 + 20 + 3 + len(w.SNI) + 1 + len(w.User) + 4 + 8 + 8 + 32 + 32
+		req[off], req[off+1] = 0xff, 0xff
+		return req, false, "id-chunk-too-long"
+	case 8: // a message type that does not exist, with trailing bytes
+		return append([]byte{9}, body...), false, "unknown-type-with-trailing-bytes"
+	case 9: // a denial where a request is expected
+		return append([]byte{4, 5}, "hello"...), false, "denial-as-request"
+	case 10: // message type 0 / 255 with trailing bytes
+		return append([]byte{255}, body...), false, "unknown-type-with-trailing-bytes"
 	}
 	return nil, false, ""
+}
+
+const c06MalformedKinds = 10
+
+// trailer returns the malformed message sent after the last request.
+func (c c06Case) trailer() (msg []byte, closeAfter bool, name string) {
+	if len(c.Reqs) == 0 || c.Trailer == 0 {
+		return nil, false, ""
+	}
+	return c06Malformed(c.Trailer, c.wire(len(c.Reqs)-1))
+}
+
+// message returns the bytes the delegate writes at position k: the request, or the
+// malformed message that stands in its place (name != "").
+func (c c06Case) message(k int) (msg []byte, name string) {
+	w := c.wire(k)
+	if b := c.Reqs[k].Bad; b != 0 {
+		if m, _, nme := c06Malformed(b, w); m != nil && b != 1 {
+			return m, nme
+		}
+	}
+	return append([]byte{1}, w.body()...), ""
+}
+
+// firstBad returns the position of the first malformed message (len(c.Reqs) if there is none).
+func (c c06Case) firstBad() int {
+	for k := range c.Reqs {
+		if _, name := c.message(k); name != "" {
+			return k
+		}
+	}
+	return len(c.Reqs)
 }
 
 // ---------------------------------------------------------------------------
@@ -531,9 +605,41 @@ type c06World struct {
 	evs    []c06Ev
 	// connections handed out by setup
 	pEnds, tEnds []net.Conn
+	spans        map[int][]c06Span // per target connection: which request was in flight when the principal wrote which bytes
+	long         time.Duration     // how long the delegate waits for an answer it is owed (longer than all target delays together)
 	wg           sync.WaitGroup
 	panicSig     string
 	panicMsg     string
+}
+
+// c06Span: the bytes of a target connection up to offset end (exclusive) were written while request req was in flight.
+type c06Span struct {
+	end int64
+	req int
+}
+
+// reqOfByte returns the request that was in flight when the principal wrote byte number off of target connection idx.
+func (w *c06World) reqOfByte(idx int, off int64) int {
+	w.mu.Lock()
+	defer w.mu.Unlock()
+	for _, s := range w.spans[idx] {
+		if off < s.end {
+			return s.req
+		}
+	}
+	return w.cur
+}
+
+// c06CountConn counts the bytes its reader has been handed (the target's end of a target connection).
+type c06CountConn struct {
+	net.Conn
+	n atomic.Int64
+}
+
+func (c *c06CountConn) Read(p []byte) (int, error) {
+	n, err := c.Conn.Read(p)
+	c.n.Add(int64(n))
+	return n, err
 }
 
 func (w *c06World) log(e c06Ev) {
@@ -595,9 +701,16 @@ func (c *c06DelegateSide) Write(b []byte) (int, error) {
 // refuse, confirm — while the trailer is in flight).
 func (w *c06World) req() c06Req {
 	w.mu.Lock()
-	defer w.mu.Unlock()
-	if w.cur >= 0 && w.cur < len(w.c.Reqs) {
-		return w.c.Reqs[w.cur]
+	k := w.cur
+	w.mu.Unlock()
+	return w.reqN(k)
+}
+
+// reqN returns the script entry of request k; the zero entry (refuse, confirm at once) for
+// the trailer and for a malformed message, which is not a request and has no script.
+func (w *c06World) reqN(k int) c06Req {
+	if k >= 0 && k < len(w.c.Reqs) && w.c.Reqs[k].Bad == 0 {
+		return w.c.Reqs[k]
 	}
 	return c06Req{}
 }
@@ -632,7 +745,15 @@ type c06RecConn struct {
 }
 
 func (c *c06RecConn) Write(b []byte) (int, error) {
-	c.w.log(c06Ev{Kind: "twrite", Conn: c.idx, Bytes: append([]byte(nil), b...)})
+	w := c.w
+	w.mu.Lock()
+	var end int64
+	if sp := w.spans[c.idx]; len(sp) > 0 {
+		end = sp[len(sp)-1].end
+	}
+	w.spans[c.idx] = append(w.spans[c.idx], c06Span{end: end + int64(len(b)), req: w.cur})
+	w.mu.Unlock()
+	w.log(c06Ev{Kind: "twrite", Conn: c.idx, Bytes: append([]byte(nil), b...)})
 	return c.Conn.Write(b)
 }
 
@@ -690,49 +811,61 @@ func (w *c06World) setup(u core.URL, verify AdditionalVerifyCallback) (net.Conn,
 	return &c06RecConn{Conn: pEnd, w: w, idx: idx}, nil
 }
 
-func (w *c06World) scriptedTarget(idx int, c net.Conn) {
+func (w *c06World) scriptedTarget(idx int, conn net.Conn) {
 	defer w.wg.Done()
-	defer c.Close()
+	defer conn.Close()
+	c := &c06CountConn{Conn: conn}
 	for {
 		var first [1]byte
+		off := c.n.Load()
 		if _, err := io.ReadFull(c, first[:]); err != nil {
 			return
 		}
-		r := w.req()
+		// the request this message belongs to: the one in flight when the principal wrote its first byte
+		k := w.reqOfByte(idx, off)
+		r := w.reqN(k)
+		log := func(e c06Ev) { e.Conn = idx; w.logAt(k, e) }
+		delay := func() {
+			if d := c06Clamp(r.Delay, 0, 120); d > 0 { // a slow target (or a slow path to it)
+				time.Sleep(time.Duration(d) * time.Second)
+			}
+		}
 		if r.Tb == c06TbCloseEarly {
-			w.log(c06Ev{Kind: "tact", Conn: idx, Note: "close-early"})
+			delay()
+			log(c06Ev{Kind: "tact", Note: "close-early"})
 			return
 		}
 		if first[0] != 2 {
-			w.log(c06Ev{Kind: "tact", Conn: idx, Note: "unexpected-message-type"})
+			log(c06Ev{Kind: "tact", Note: "unexpected-message-type"})
 			return
 		}
 		body, err := c06ReadBody(c)
 		if err != nil {
-			w.log(c06Ev{Kind: "tact", Conn: idx, Note: "unreadable-message"})
+			log(c06Ev{Kind: "tact", Note: "unreadable-message"})
 			return
 		}
-		w.log(c06Ev{Kind: "tmsg", Conn: idx, W: body})
+		log(c06Ev{Kind: "tmsg", W: body})
+		delay()
 		switch r.Tb {
 		case c06TbDeny:
 			reason := c06Reason("target says no", c06Clamp(r.TLen, 0, 255))
-			w.log(c06Ev{Kind: "tact", Conn: idx, Note: "deny"})
+			log(c06Ev{Kind: "tact", Note: "deny"})
 			if _, err := c.Write(append([]byte{4, byte(len(reason))}, reason...)); err != nil {
 				return
 			}
 		case c06TbClose:
-			w.log(c06Ev{Kind: "tact", Conn: idx, Note: "close"})
+			log(c06Ev{Kind: "tact", Note: "close"})
 			return
 		case c06TbGarbage:
 			g := append([]byte{r.GFirst}, vlib.Fill(r.GSeed, c06Clamp(r.GLen, 0, 40))...)
 			if g[0] == 3 {
 				g[0] = 0
 			}
-			w.log(c06Ev{Kind: "tact", Conn: idx, Note: "garbage"})
+			log(c06Ev{Kind: "tact", Note: "garbage"})
 			c.Write(g)
 			return
 		default:
-			w.log(c06Ev{Kind: "tact", Conn: idx, Note: "confirm", OK: true})
+			log(c06Ev{Kind: "tact", Note: "confirm", OK: true})
 			if _, err := c.Write([]byte{3}); err != nil {
 				return
 			}
@@ -740,22 +873,29 @@ func (w *c06World) scriptedTarget(idx int, c net.Conn) {
 	}
 }
 
-func (w *c06World) realTarget(idx int, c net.Conn) {
+func (w *c06World) realTarget(idx int, conn net.Conn) {
 	defer w.wg.Done()
+	c := &c06CountConn{Conn: conn}
 	pcert := &certs.Certificate{Version: 1, Type: certs.Leaf}
+	k := 0 // the request whose intent communication the instance is working on
 	ci := func(i Intent, _ *certs.Certificate) error {
-		r := w.req()
+		// the instance has just read a complete message: it belongs to the request in flight when its last byte was written
+		k = w.reqOfByte(idx, c.n.Load()-1)
+		r := w.reqN(k)
+		if d := c06Clamp(r.Delay, 0, 120); d > 0 { // the target's policy check is slow
+			time.Sleep(time.Duration(d) * time.Second)
+		}
 		ok := r.Tb%3 != c06RtRefuse
-		w.log(c06Ev{Kind: "rtcheck", Conn: idx, OK: ok, W: c06FromIntent(i)})
+		w.logAt(k, c06Ev{Kind: "rtcheck", Conn: idx, OK: ok, W: c06FromIntent(i)})
 		if !ok {
 			return errors.New(c06Reason("target policy refuses", c06Clamp(r.TLen, 0, 255)))
 		}
 		return nil
 	}
 	add := func(i *Intent) error {
-		r := w.req()
+		r := w.reqN(k)
 		ok := r.Tb%3 != c06RtStoreFail
-		w.log(c06Ev{Kind: "rtadd", Conn: idx, OK: ok, W: c06FromIntent(*i)})
+		w.logAt(k, c06Ev{Kind: "rtadd", Conn: idx, OK: ok, W: c06FromIntent(*i)})
 		if !ok {
 			return errors.New(c06Reason("cannot store grant", c06Clamp(r.TLen, 0, 255)))
 		}
@@ -766,19 +906,24 @@ func (w *c06World) realTarget(idx int, c net.Conn) {
 }
 
 // readAnswers parses what arrives on the delegate connection until the
-// connection has been silent for one (virtual) second or is closed. m requests
-// (first, first+1, ...) are outstanding: the j-th answer belongs to the j-th of
-// them, anything beyond to the last.
+// connection is closed or has been silent for one (virtual) second after the
+// last answer that was owed. m requests (first, first+1, ...) are outstanding:
+// the j-th answer belongs to the j-th of them, anything beyond to the last. For
+// an answer that is still owed the delegate waits as long as it takes (w.long
+// exceeds all target delays of the case together; the statement sets no time
+// limit for an answer, and the virtual clock makes waiting free).
 func (w *c06World) readAnswers(c net.Conn, first, m int) {
-	wait := 10 * time.Second
 	for n := 0; n < 8+2*m; n++ {
 		req := first + min(n, m-1)
+		wait := time.Second
+		if n < m {
+			wait = w.long
+		}
 		c.SetReadDeadline(time.Now().Add(wait))
 		var b [1]byte
 		if _, err := io.ReadFull(c, b[:]); err != nil {
 			return
 		}
-		wait = time.Second
 		c.SetReadDeadline(time.Now().Add(time.Second))
 		switch b[0] {
 		case 3:
@@ -807,6 +952,10 @@ func (w *c06World) readAnswers(c net.Conn, first, m int) {
 // scenario runs inside the bubble.
 func (w *c06World) scenario() {
 	pSide, dD := c06Pipe(w.c.Deliv) // principal's end, delegate's end
+	w.long = 10 * time.Second
+	for _, r := range w.c.Reqs {
+		w.long += time.Duration(c06Clamp(r.Delay, 0, 120)) * time.Second
+	}
 	w.wg.Add(1)
 	go func() {
 		defer w.wg.Done()
@@ -828,8 +977,12 @@ func (w *c06World) scenario() {
 			}
 			seg = nil
 		}
+		var ends []int // ends[j-k]: length of the group's byte stream up to the end of message j
+		total := 0
 		for j := k; j < k+m; j++ {
-			msg := append([]byte{1}, w.c.wire(j).body()...)
+			msg, _ := w.c.message(j)
+			total += len(msg)
+			ends = append(ends, total)
 			switch sp := w.c.Reqs[j].Split; {
 			case sp < 0:
 				flush()
@@ -844,6 +997,7 @@ func (w *c06World) scenario() {
 		}
 		flush()
 		ok := true
+		written, done := 0, 0
 		for i, b := range segs {
 			if i > 0 {
 				time.Sleep(time.Nanosecond) // everybody else runs until blocked: what was written so far arrives on its own
@@ -851,17 +1005,25 @@ func (w *c06World) scenario() {
 			if _, err := dD.Write(b); err != nil {
 				ok = false
 			}
+			if ok { // a message counts as written once its last byte has been written
+				for written += len(b); done < m && ends[done] <= written; done++ {
+					w.logAt(k+done, c06Ev{Kind: "reqwrite", OK: true})
+				}
+			}
 		}
-		w.logAt(k, c06Ev{Kind: "reqwrite", OK: ok})
+		for ; done < m; done++ {
+			w.logAt(k+done, c06Ev{Kind: "reqwrite"})
+		}
 		w.readAnswers(dD, k, m)
 		k += m
 	}
 	if msg, closeAfter, _ := w.c.trailer(); msg != nil {
 		w.setCur(len(w.c.Reqs))
-		dD.Write(msg)
+		_, err := dD.Write(msg)
 		if closeAfter {
 			dD.Close()
 		} else {
+			w.logAt(len(w.c.Reqs), c06Ev{Kind: "reqwrite", OK: err == nil})
 			w.readAnswers(dD, len(w.c.Reqs), 1)
 		}
 	}
@@ -889,24 +1051,45 @@ func c06Judge(c c06Case, evs []c06Ev, v *vlib.Verdict) {
 			connBorn[e.Conn] = e.Req
 		}
 	}
-	for k := 0; k <= n; k++ {
+	firstBad := c.firstBad()
+	for k := 0; k <= n && k <= firstBad; k++ {
 		var win []c06Ev
 		for _, e := range evs {
 			if e.Req == k {
 				win = append(win, e)
 			}
 		}
-		if k == n { // trailer: a malformed message is not a request; nothing may be forwarded or confirmed
-			_, _, name := c.trailer()
+		if k == n || k == firstBad { // a malformed message (in place of request k, or the trailer) is not a request: nothing may be forwarded or confirmed, and it gets no or one answer
+			name := ""
+			if k == n {
+				_, _, name = c.trailer()
+			} else {
+				_, name = c.message(k)
+			}
+			nans := 0
+			var kinds []string
 			for _, e := range win {
 				if e.Kind == "twrite" {
-					v.Failf("C06:forwarded-malformed-request:"+name, "after the malformed message %q the principal wrote %d bytes on target connection %d", name, len(e.Bytes), e.Conn)
+					v.Failf("C06:forwarded-malformed-request:"+name, "after the malformed message %q (position %d of %d) the principal wrote %d bytes on target connection %d", name, k, n, len(e.Bytes), e.Conn)
 					return
 				}
 				if e.Kind == "answer" && e.OK {
-					v.Failf("C06:confirmed-malformed-request:"+name, "the malformed message %q was answered with a confirmation", name)
+					v.Failf("C06:confirmed-malformed-request:"+name, "the malformed message %q (position %d of %d) was answered with a confirmation", name, k, n)
 					return
 				}
+				if e.Kind == "answer" {
+					nans++
+					kinds = append(kinds, e.Note+"("+string(e.Bytes)+")")
+				}
+			}
+			if first, m := c06GroupAt(c, k); nans > 1 && k == first+m-1 {
+				// (answers beyond the group size are booked on the last message of a group: only there is the count per message exact)
+				v.Failf("C06:answered-more-than-once:malformed-request:"+name, "the delegate wrote ONE malformed message (%q, position %d of %d) and read %d answers to it before one second of silence: %s",
+					name, k, n, nans, strings.Join(kinds, ", "))
+				return
+			}
+			if name != "" {
+				v.Labelf("malformed-request:answers=%d", min(nans, 2))
 			}
 			continue
 		}
@@ -1072,6 +1255,37 @@ func c06Judge(c c06Case, evs []c06Ev, v *vlib.Verdict) {
 		v.Label("answer:" + a.Note)
 		v.Label("class:" + class + ":" + path)
 	}
+	// ---- (iii), whole connection: answers correspond to requests, so at no time has the delegate read more
+	// answers than the number of messages it has completely written (well formed or not). This is all that is
+	// judged about the messages behind a malformed one.
+	written, read := 0, 0
+	for _, e := range evs {
+		switch {
+		case e.Kind == "reqwrite" && e.OK:
+			written++
+		case e.Kind == "answer" && (e.Note == "confirmation" || e.Note == "denial"):
+			read++
+			if read > written {
+				sfx := ""
+				if firstBad < n {
+					_, name := c.message(firstBad)
+					sfx = ":after-malformed-request:" + name
+				} else if _, _, name := c.trailer(); name != "" && e.Req == n {
+					sfx = ":after-malformed-request:" + name
+				}
+				v.Failf("C06:more-answers-than-requests"+sfx, "the delegate has completely written %d messages on the connection and has read %d answers (the surplus one while request %d of %d was the last one written)", written, read, e.Req, n)
+				return
+			}
+		}
+	}
+}
+
+// c06GroupAt is c06Group for positions 0..len(c.Reqs) (the trailer is a group of its own).
+func c06GroupAt(c c06Case, k int) (first, m int) {
+	if k >= len(c.Reqs) {
+		return k, 1
+	}
+	return c06Group(c, k)
 }
 
 // c06Group returns the first request and the size of the send-ahead group request k belongs to.
@@ -1168,12 +1382,18 @@ func c06Classify(c c06Case, evs []c06Ev, v *vlib.Verdict) {
 	v.Labelf("requests=%d", len(c.Reqs))
 	dec := make([]byte, len(c.Reqs))
 	approves, denies := 0, 0
+	firstBad := c.firstBad()
 	for k, r := range c.Reqs {
-		dec[k] = 'D'
-		if r.Approve {
+		switch {
+		case k == firstBad:
+			dec[k] = 'M' // malformed message: not a request, no decision
+		case k > firstBad:
+			dec[k] = '-' // behind a malformed message: not judged request by request
+		case r.Approve:
 			dec[k] = 'A'
 			approves++
-		} else {
+		default:
+			dec[k] = 'D'
 			denies++
 		}
 	}
@@ -1240,8 +1460,51 @@ func c06Classify(c c06Case, evs []c06Ev, v *vlib.Verdict) {
 			perReq[e.Req] = append(perReq[e.Req], l)
 		}
 	}
+	if firstBad < len(c.Reqs) {
+		_, name := c.message(firstBad)
+		v.Label("malformed-request:" + name)
+		switch {
+		case len(c.Reqs) == 1:
+			v.Label("malformed-request:position:only")
+		case firstBad == 0:
+			v.Label("malformed-request:position:first")
+		case firstBad == len(c.Reqs)-1:
+			v.Label("malformed-request:position:last")
+		default:
+			v.Label("malformed-request:position:middle")
+		}
+		if c.Reqs[firstBad].Ahead || (firstBad+1 < len(c.Reqs) && c.Reqs[firstBad+1].Ahead) {
+			v.Label("malformed-request:in-send-ahead-group")
+		}
+		key = append(key, fmt.Sprintf("bad%d@%d", c.Reqs[firstBad].Bad, firstBad))
+	}
+	// a slow target: the delay counts where an intent communication reached a target
+	slowSeen := false
+	for k := 0; k < firstBad; k++ {
+		forwarded := false
+		for _, l := range perReq[k] {
+			if strings.HasPrefix(l, "t:") || strings.HasPrefix(l, "rt:") {
+				forwarded = true
+			}
+		}
+		d := c06Clamp(c.Reqs[k].Delay, 0, 120)
+		if slowSeen && forwarded {
+			once("target-delay:request-follows-a-slow-answer")
+		}
+		if forwarded && d > 0 {
+			v.Labelf("target-delay:%ds", d)
+			if d > 5 {
+				slowSeen = true
+			}
+			perReq[k] = append(perReq[k], fmt.Sprintf("d%d", d))
+		}
+	}
 	for k := range c.Reqs {
 		w := c.wire(k)
+		if k > firstBad {
+			key = append(key, "-")
+			continue
+		}
 		if nme, ok := c06GTNames[w.GT]; ok {
 			once("grant:" + nme)
 		} else {
@@ -1302,7 +1565,7 @@ func c06RunWith(t *testing.T, c c06Case, v *vlib.Verdict) {
 		v.Discard = true
 		return
 	}
-	w := &c06World{c: c}
+	w := &c06World{c: c, spans: map[int][]c06Span{}}
 	done := make(chan string, 1)
 	go func() {
 		var res string
@@ -1460,6 +1723,13 @@ func c06Gen(t *rapid.T) c06Case {
 		}
 		c.Reqs = append(c.Reqs, r)
 	}
+	// how long the targets take to act on an intent communication (virtual seconds): in most cases at once;
+	// otherwise a drawn delay per request, short or far beyond any patience an implementation might have
+	if rapid.IntRange(0, 2).Draw(t, "slow-targets") == 0 {
+		for k := 0; k < n; k++ {
+			c.Reqs[k].Delay = rapid.SampledFrom([]int{0, 0, 1, 4, 6, 6, 30, 120}).Draw(t, "target-delay")
+		}
+	}
 	// how the requests are put on the wire: strictly request / answer / request (as the
 	// project's own delegate does), some of them sent ahead, or all in one go; and where
 	// the byte stream pauses
@@ -1482,7 +1752,11 @@ func c06Gen(t *rapid.T) c06Case {
 		}
 	}
 	if rapid.IntRange(0, 4).Draw(t, "has-trailer") == 0 {
-		c.Trailer = rapid.IntRange(1, 4).Draw(t, "trailer")
+		c.Trailer = rapid.IntRange(1, c06MalformedKinds).Draw(t, "trailer")
+	}
+	// a malformed message in place of one of the requests, at any position (the trailer covers "behind the last one")
+	if rapid.IntRange(0, 7).Draw(t, "has-malformed") == 0 {
+		c.Reqs[rapid.IntRange(0, n-1).Draw(t, "malformed-at")].Bad = rapid.IntRange(2, c06MalformedKinds).Draw(t, "malformed-kind")
 	}
 	c.Deliv = rapid.SampledFrom([]int{0, 0, 0, 1, 2, 2, 4, 5, 6}).Draw(t, "delivery")
 	return c
